@@ -205,7 +205,12 @@ def compare_proc(cid, cline, il, ml, counters, want_accept_check):
         return out
     if io[0] == "DIVZERO":
         counters["divide_by_zero"] += 1
-    if do is not None:
+    if do is not None and do[0] == "UNDEFINED" and mo == io and io[0] != "UNDEFINED":
+        # the checker typed a variable differently from its run-time type (`matchNumber` is a number at run time and
+        # a string to the checker), so the operand types at run time are not a row of the documented table: outside
+        # C11_eval's hypothesis Models; only the model is compared
+        counters["outside_documented_table"] += 1
+    elif do is not None:
         counters["doc_compared"] += 1
         if do != io:
             out.append(("failing-input", "the value computed at run time is not the documented one (Spec.DocOps.eval; C11_eval)",
